@@ -5,7 +5,7 @@ from harness import common, gen, api
 from harness.common import fhex, flist, ftable, ftable2, cbool
 
 LEVEL = "proof"
-IMPORTS = ["From MuxV Require Import Base.Num Base.Vec3 Base.FInst Model.Grid Model.GridF Model.QCurve Model.QCurveF Model.Kuchemann Model.KuchemannF Model.SegSort Model.SegSortF Model.Swept Model.SweptF Model.Reid Model.ReidF Model.Gather Model.GatherF."]
+IMPORTS = ["From MuxV Require Import Base.Num Base.Vec3 Base.FInst Model.Grid Model.GridF Model.QCurve Model.QCurveF Model.Kuchemann Model.KuchemannF Model.SegSort Model.SegSortF Model.Wings Model.Swept Model.SweptF Model.Reid Model.ReidF Model.Gather Model.GatherF."]
 
 
 # ------------------------------------------------------------------ grid correspondence
@@ -252,6 +252,75 @@ def swept_cases(chk, a, cases, descr):
             flist([float(x_) for x_ in seg.cp_span_locs]),
             "; ".join("(%s, %s, %s)" % (cv3(seg.u_a_cp[i]), cv3(seg.u_n_cp[i]), cv3(seg.u_s_cp[i])) for i in range(seg.N))))
         descr.append(dict(what="control-point-triads", segment=seg.name))
+
+
+def wing_group_cases(chk, a, cases, descr):
+    """Model/Wings.v: the grouping of the half-segments into wings recomputed by the model from what the procedure reads (ID, side, mirror,
+    zero lateral offset, continuation, connected-to ID, parent's mirror) in dictionary order; compared wing by wing as multisets (the live
+    wings are re-ordered afterwards by _sort_segments_left_to_right), with the number of wings and each half-segment's wing_ID"""
+    cb = common.cbool
+    hs = []
+    for name, seg in a.wing_segments.items():
+        hs.append("(mk_hs %d%%nat %s %s %s %s %d%%nat %s)" % (int(seg.ID), cb(seg.side == "right"), cb(bool(seg.has_mirror)), cb(abs(float(seg.y_offset)) < 1e-12),
+                                                              cb(bool(seg.is_continuation())), int(seg._connected_to_ID), cb(bool(getattr(seg, "parent_has_mirror", False)))))
+    live = []
+    for wi, wing in enumerate(a._segments_in_wings):
+        live.append("[" + "; ".join("(%d%%nat, %s)" % (int(s_.ID), cb(s_.side == "right")) for s_ in wing) + "]")
+        for s_ in wing:
+            if s_.wing_ID != wi:
+                chk.violation("wing-group:wing_ID", dict(kind="wing-group", segment=s_.name, wing_ID=int(s_.wing_ID), listed_in_wing=wi))
+    cases.append("chk_wings [%s] [%s] %d%%nat" % ("; ".join(hs), "; ".join(live), int(a._num_wings)))
+    descr.append(dict(what="wing-grouping", segments=list(a.wing_segments.keys()), wings=[[s_.name for s_ in w] for w in a._segments_in_wings]))
+    chk.count("wing-grouping:wings=%d" % len(a._segments_in_wings))
+    chk.count("wing-grouping:halves=%d" % len(a.wing_segments))
+
+
+def wing_tree_cases(chk, MX, n, cases, descr):
+    """random segment trees for the grouping: one- and two-sided segments attached to the origin or to earlier segments at the tip or the root,
+    with and without connection offsets and lateral offsets (tip continuations, branches, T-tails on one-sided fins, split wings)"""
+    rng = chk.rng
+    for it in range(n):
+        ac = gen.simple_wing_aircraft(N=2, reid=False, controls=False)
+        base = copy.deepcopy(ac["wings"]["main_wing"])
+        base["grid"] = {"N": 2, "reid_corrections": False}
+        base["is_main"] = False
+        wings = {}
+        m = rng.randint(2, 6)
+        sides = {}
+        for k in range(1, m + 1):
+            w = copy.deepcopy(base)
+            w["ID"] = k
+            w["side"] = rng.choice(["both", "both", "left", "right"])
+            w["semispan"] = round(rng.uniform(0.8, 2.5), 3)
+            w["dihedral"] = rng.choice([0.0, 0.0, 10.0, 90.0, -20.0])
+            con = {}
+            if k > 1 and rng.random() < 0.8:
+                con["ID"] = rng.randint(1, k - 1)
+                con["location"] = rng.choice(["tip", "tip", "tip", "root"])
+                if rng.random() < 0.25:
+                    con[rng.choice(["dx", "dy", "dz"])] = rng.choice([-0.3, 0.2])
+            else:
+                con["ID"] = 0
+                con["dx"] = -1.5 * (k - 1)
+            if rng.random() < 0.2:
+                con["y_offset"] = 0.3
+            w["connect_to"] = con
+            if k == 1:
+                w["is_main"] = True
+            sides[k] = w["side"]
+            wings["seg%d" % k] = w
+        ac["wings"] = wings
+        try:
+            sc = gen.build_scene(MX, {"scene": {"atmosphere": {"rho": 0.0023769}}}, [("a", ac, {"velocity": 50.0}, {})])
+        except Exception as e:
+            chk.count("wing-tree:rejected:" + type(e).__name__)      # e.g. a left half asked to hang on a right-only parent
+            continue
+        a = sc._airplanes["a"]
+        chk.case(dict(kind="wing-tree", n=m, sides=[sides[k] for k in sorted(sides)]), nontrivial=len(a._segments_in_wings) >= 2)
+        k0 = len(descr)
+        wing_group_cases(chk, a, cases, descr)
+        for d in descr[k0:]:
+            d["aircraft"] = ac
 
 
 def sort_cases(chk, a, cases, descr):
@@ -531,7 +600,7 @@ def run(chk):
         "nodes / control_points from quarter-chord point, ll_offset, chord and section angles",
         "independent oracle for the quarter-chord curve: scipy.quad integration of the documented curve (dx/ds=-b tan(sweep), dihedral rotating the "
         "span direction, connection point with mirrored y offset) written separately from the implementation",
-        "correspondence: Model/Kuchemann.v on binary64 vs the stored table of Kuchemann offsets (bit-exact; cos, tan, float power as oracles); dihedral and sweep derived from quarter-chord points (bit-exact; arctan2, arctan, scalar square as oracles)", "correspondence: Model/Swept.v on binary64 vs the swept unit vectors stored at the nodes (_u_a_dist, _u_n_dist, _u_s_dist) and at the control points (u_a_cp, u_n_cp, u_s_cp; 2^-30), Model/SegSort.v vs the order of the left-hand segments", "not modelled: callables; scipy.integrate.quad is an oracle"])
+        "correspondence: Model/Kuchemann.v on binary64 vs the stored table of Kuchemann offsets (bit-exact; cos, tan, float power as oracles); dihedral and sweep derived from quarter-chord points (bit-exact; arctan2, arctan, scalar square as oracles)", "correspondence: Model/Swept.v on binary64 vs the swept unit vectors stored at the nodes (_u_a_dist, _u_n_dist, _u_s_dist) and at the control points (u_a_cp, u_n_cp, u_s_cp; 2^-30), Model/SegSort.v vs the order of the left-hand segments, Model/Wings.v vs the grouping of the half-segments into wings (_segments_in_wings, _num_wings, wing_ID) on the generated aircraft and on random segment trees", "not modelled: callables; scipy.integrate.quad is an oracle"])
     rng = chk.rng
     cases, descr = [], []
     n = chk.q(40, 400)
@@ -582,6 +651,7 @@ def run(chk):
         qcurve_cases(chk, ac, a, cases, descr)
         reid_cases(chk, a, cases, descr, rng)
         sort_cases(chk, a, cases, descr)
+        wing_group_cases(chk, a, cases, descr)
         swept_cases(chk, a, cases, descr)
         # reference quantities
         ref = ac.get("reference", {})
@@ -619,6 +689,7 @@ def run(chk):
         S, lon, lat = sc.get_aircraft_reference_geometry()
         if not (math.isfinite(S) and math.isfinite(lon) and math.isfinite(lat) and S > 0 and lon > 0 and lat > 0):
             chk.violation("reference-not-finite", dict(kind="geometry", aircraft=ac, S=S, lon=lon, lat=lat))
+    wing_tree_cases(chk, MX, chk.q(60, 600), cases, descr)
     failing, nfiles, errors = common.run_cases("C12", IMPORTS, [], cases)
     chk.cov["traces_validated_against_impl"] = len(cases)
     chk.cov["correspondence_cases"] = len(cases)
